@@ -52,7 +52,10 @@ def one(impl, cell):
         return None      # nothing can be opened: the request is refused (EioServer covers it)
     cfg = {'ping_interval': int(I * 16), 'ping_timeout': int(T * 16), 'grace': int(G * 16),
            'max_buf': mb, 'allow_upgrades': allow, 'transports': TCFG[cfgt],
-           'ws_available': wsavail, 'cookie': COOKIES[cookie]}
+           'ws_available': wsavail, 'cookie': COOKIES[cookie],
+           # a raising connect handler raises one of several exception classes (TypeError is the
+           # one the servers themselves catch to detect legacy handlers)
+           'exc_type': ('type', 'runtime', 'key', 'value', 'os')[sum(map(ord, repr(cell))) % 5]}
     w = W.make_world(impl, cfg)
     try:
         w.connect_plan = [('raise', hsend)] if h == 'raise' else [(('ret', OUTCOMES[h]), hsend)]
